@@ -25,6 +25,9 @@ import (
 const (
 	KBlock = 0 // data block with N dense nodes
 	KBad   = 1 // OSMData blob with neither raw nor zlib data: Decode fails ("unknown blob data")
+	// KForeign: a fileblock whose type is neither OSMHeader nor OSMData (index / vendor block).
+	// The decoder under test reports "unexpected fileblock" for it: the scan ends there with an error.
+	KForeign = 2
 )
 
 // Error codes shared with Coq (Pipeline/Model.v).
@@ -66,12 +69,22 @@ type File struct {
 	// 1 empty input (io.EOF), 2 input cut inside the header block (io.ErrUnexpectedEOF),
 	// 3 unknown first block type, 4 header requires an unsupported feature.
 	StartFail int
-	Bytes     []byte
-	Starts    []int64 // start offset of every file block (header first when present), then len(Bytes)
+	// Wide: ids are b*100000 + j + 1 (blocks may hold up to 99999 objects), dense nodes only
+	Wide   bool
+	Bytes  []byte
+	Starts []int64 // start offset of every file block (header first when present), then len(Bytes)
 }
 
 // NodeID of object j of item b (distinguishable across the file).
 func NodeID(b, j int) int64 { return int64(b)*1000 + int64(j) + 1 }
+
+// ID of object j of item b in this file.
+func (f *File) ID(b, j int) int64 {
+	if f.Wide {
+		return int64(b)*100000 + int64(j) + 1
+	}
+	return NodeID(b, j)
+}
 
 // IDs the file is meant to deliver: objects of the blocks before the first bad block, in order.
 func (f *File) Expected() []int64 {
@@ -81,7 +94,7 @@ func (f *File) Expected() []int64 {
 			break
 		}
 		for j := 0; j < it.N; j++ {
-			out = append(out, NodeID(b, j))
+			out = append(out, f.ID(b, j))
 		}
 	}
 	return out
@@ -103,28 +116,31 @@ func (f *File) Desc() *pbfgen.FileDesc {
 	for b, it := range f.Items {
 		blk := &pbfgen.Block{Strings: []string{""}}
 		blk.Zlib = b%4 == 1
-		if it.Kind != KBlock {
+		switch it.Kind {
+		case KBad:
 			blk.Damage = &pbfgen.Damage{NoData: true} // neither raw nor zlib_data: "unknown blob data"
+		case KForeign:
+			blk.Damage = &pbfgen.Damage{BlobType: pbfgen.Str("X-SpatialIndex")}
 		}
 		n := it.N
 		if it.Kind != KBlock {
 			n = 2
 		}
 		nway := 0
-		if b%3 == 2 && n > 0 {
+		if b%3 == 2 && n > 0 && !f.Wide {
 			nway = 1
 		}
 		var g pbfgen.Group
 		if n-nway > 0 {
 			dn := &pbfgen.Dense{}
 			for j := 0; j < n-nway; j++ {
-				id := NodeID(b, j)
+				id := f.ID(b, j)
 				dn.Nodes = append(dn.Nodes, pbfgen.DenseNode{ID: id, Lat: id * 7, Lon: -id * 3, Info: pbfgen.Info{Visible: true}})
 			}
 			g.Items = append(g.Items, pbfgen.Item{Dense: dn})
 		}
 		if nway == 1 {
-			id := NodeID(b, n-1)
+			id := f.ID(b, n-1)
 			g.Items = append(g.Items, pbfgen.Item{Way: &pbfgen.Way{ID: id, Info: pbfgen.Info{Visible: true}, Refs: []int64{id, id + 1}}})
 		}
 		if len(g.Items) > 0 {
